@@ -30,7 +30,12 @@ ASSUMPTIONS = ["integer-millisecond clock (sub-millisecond float behaviour is no
                "it does change while answers are queued",
                "timer callbacks run exactly when due (stage C, every theorem); the scenarios numbered from LATE_BASE run the real responder on a loop "
                "whose timers fire a seeded 0..3 ms late and are judged by the oracle alone: lower bounds (20 ms, 400 ms, one second) exactly, upper "
-               "bounds (500 ms, 1.2 s, hold 500 ms) plus 3 ms"]
+               "bounds (500 ms, 1.2 s, hold 500 ms) plus 3 ms",
+               "one listener on one socket (IPv4, or IPv6 in the scenarios numbered from V6_BASE): a query arriving on two sockets, or a train "
+               "split over two listeners, is not generated; a probe flag only on the first packet of a train; sightings come from the host's own "
+               "looped-back transmissions and from direct cache pokes, no other host multicasts the responder's records",
+               "a reply of several datagrams (scenarios numbered from BIG_BASE) is ONE reply: the datagrams of one `async_send` call are merged "
+               "before they are compared with the model and judged"]
 UNREG_BASE = 1_000_000   # trace scenarios numbered from here unregister services while answers are queued
 LATE_BASE = 2_000_000    # ... from here run on a loop whose timers fire a seeded 0..LATE ms late (oracle only: the model's loop facts exclude it)
 LATE = 3
@@ -571,8 +576,11 @@ def spec_classes(tr, b, parsed_by_data):
     # once the IPv6-only host of wp-C11DEEP is merged: D29); until then the store entry under the record's own key
     seen = {i: (c, ttl) for (i, c, ttl) in asm.get("seen_blind", asm["seen"])}
     for rid_, (t_s, ttl_s) in (b.get("sight") or {}).items():
-        if rid_ not in seen or seen[rid_][0] < t_s:
-            seen[rid_] = (t_s, ttl_s)  # a later sighting than the cache admits (see `check_trace_O`)
+        # a later sighting than the cache admits (see `check_trace_O`) -- used for the one-second clause only, i.e. when it lies in the
+        # second before the query arrived: an older entry may legitimately be gone (RFC 6762 10.2: a cache-flush record of the same
+        # name makes its siblings expire within a second -- services that share a host name with different addresses flush each other)
+        if asm["last_now"] - t_s < 1000 and (rid_ not in seen or seen[rid_][0] < t_s):
+            seen[rid_] = (t_s, ttl_s)
     probe = any(p["num_auth"] > 0 for p in pkts)
     known = {}
     for p in pkts:
